@@ -65,6 +65,7 @@ class Lock:
 class BuildResult:
     def __init__(self):
         self.translate_errors = []      # [(gen file, message)]
+        self.unrelated_translate_errors = []   # failures of Gen files this property does not depend on (reported, not counted)
         self.changed = []
         self.make_ok = True
         self.make_log = ""
@@ -206,6 +207,31 @@ def build(prop_ids, need_driver=True, timeout=1500):
                     r.assumptions[nme] = "(Print Assumptions produced no output: %s)" % q.stderr[-200:]
                     r.open_assumptions.append(nme)
         r.forbidden = grep_forbidden()
+        # a translation failure only breaks the tie of the properties whose Props file depends on that Gen file
+        # (the extraction also needs the Gen files the extracted models use)
+        try:
+            deps = {}
+            with open(os.path.join(COQ, ".Makefile.d")) as f:
+                for line in f:
+                    if ".vo " in line.split(":")[0] + " " and ":" in line:
+                        tg, _, src = line.partition(":")
+                        for t in tg.split():
+                            if t.endswith(".vo"):
+                                deps[t] = [x for x in src.split() if x.endswith(".vo")]
+            roots = ["theories/Props/%s.vo" % i for i in prop_ids] + (["theories/Extract/Extract.vo"] if need_driver else [])
+            seen, todo = set(), list(roots)
+            while todo:
+                x = todo.pop()
+                if x in seen:
+                    continue
+                seen.add(x)
+                todo += deps.get(x, [])
+            used = {os.path.basename(x)[:-3] for x in seen if x.startswith("theories/Gen/")}
+            if seen - set(roots):
+                r.unrelated_translate_errors = [e for e in r.translate_errors if e[0] != "*" and e[0] not in used]
+                r.translate_errors = [e for e in r.translate_errors if e[0] == "*" or e[0] in used]
+        except OSError:
+            pass
         if need_driver:
             drv = os.path.join(BUILD, "nvdriver")
             stale = (not os.path.exists(drv)) or (os.path.exists(ml) and os.path.getmtime(ml) > os.path.getmtime(drv)) \
